@@ -556,11 +556,19 @@ func main() {
 	// matrix histories: a second family of shards
 	mw := NewCaseWriter(o.Out, "mcases", hdrM, "mism4", 10)
 	mw.Type = "case4"
-	mw.Rule = ruleM
+	mw.Rule = ruleM + "; " + ruleDirected
 	for _, c := range readMCorpus(o.Extra) {
 		c.Outs = executeM(c)
 		mw.Add(coqMCase(c), c, "corpus:"+fmt.Sprint(len(c.Ops)), true)
 		mw.Count("corpus")
+	}
+	// directed histories (directed.go): every family on every element type, each run
+	drng := NewRng(o.Seed*1000003 + 611953)
+	for k := 0; k < 27+o.N/20; k++ {
+		tn := typeNames[k%len(typeNames)]
+		c := genDirected(drng.Split(), tn, mw, k/len(typeNames))
+		mw.Add(coqMCase(c), c, directedKey(tn, c), true)
+		mw.Count("type:" + tn)
 	}
 	mrng := NewRng(o.Seed + 104729)
 	for k := 0; k < o.N/3; k++ {
